@@ -943,6 +943,161 @@ pub fn parse_anchor_name(input: &[u8], start: usize) -> usize {
     parse_anchor_name_scalar(input, start)
 }
 
+/// Verification hooks (feature `verif-hooks`): each per-level kernel of this
+/// file callable directly, behind exactly the range guard of the public
+/// wrapper in `mod.rs` (the kernels slice `input[start..end]` unchecked
+/// otherwise). `None` from an `*_avx2` hook means AVX2 is not detected on
+/// this CPU. Nothing here changes dispatch.
+#[cfg(all(feature = "verif-hooks", feature = "std"))]
+pub mod verif {
+    use super::*;
+
+    pub fn parse_simd_clamp(value: &str) -> Option<bool> {
+        super::parse_simd_clamp(value)
+    }
+
+    pub fn avx2_enabled() -> bool {
+        super::avx2_enabled()
+    }
+
+    pub fn avx2_detected() -> bool {
+        is_x86_feature_detected!("avx2")
+    }
+
+    fn range(input: &[u8], start: usize, end: usize) -> Option<usize> {
+        if start >= end || start >= input.len() {
+            None
+        } else {
+            Some(end.min(input.len()))
+        }
+    }
+
+    pub fn find_quote_or_escape_avx2(
+        input: &[u8],
+        start: usize,
+        end: usize,
+    ) -> Option<Option<usize>> {
+        if !avx2_detected() {
+            return None;
+        }
+        Some(range(input, start, end).and_then(|end| {
+            // SAFETY: AVX2 detected; start < end <= len.
+            unsafe { super::find_quote_or_escape_avx2(input, start, end) }
+        }))
+    }
+
+    pub fn find_quote_or_escape_sse2(input: &[u8], start: usize, end: usize) -> Option<usize> {
+        range(input, start, end).and_then(|end| {
+            // SAFETY: SSE2 is baseline on x86_64; start < end <= len.
+            unsafe { super::find_quote_or_escape_sse2(input, start, end) }
+        })
+    }
+
+    pub fn find_single_quote_avx2(input: &[u8], start: usize, end: usize) -> Option<Option<usize>> {
+        if !avx2_detected() {
+            return None;
+        }
+        Some(range(input, start, end).and_then(|end| {
+            // SAFETY: AVX2 detected; start < end <= len.
+            unsafe { super::find_single_quote_avx2(input, start, end) }
+        }))
+    }
+
+    pub fn find_single_quote_sse2(input: &[u8], start: usize, end: usize) -> Option<usize> {
+        range(input, start, end).and_then(|end| {
+            // SAFETY: SSE2 is baseline on x86_64; start < end <= len.
+            unsafe { super::find_single_quote_sse2(input, start, end) }
+        })
+    }
+
+    pub fn find_newline_avx2(input: &[u8], start: usize) -> Option<Option<usize>> {
+        if !avx2_detected() {
+            return None;
+        }
+        if start >= input.len() {
+            return Some(None);
+        }
+        // SAFETY: AVX2 detected; start < len.
+        Some(unsafe { super::find_newline_avx2(input, start) })
+    }
+
+    pub fn find_newline_sse2(input: &[u8], start: usize) -> Option<usize> {
+        if start >= input.len() {
+            return None;
+        }
+        // SAFETY: SSE2 is baseline on x86_64; start < len.
+        unsafe { super::find_newline_sse2(input, start) }
+    }
+
+    pub fn count_leading_spaces_avx2(input: &[u8], start: usize) -> Option<usize> {
+        if !avx2_detected() {
+            return None;
+        }
+        if start >= input.len() {
+            return Some(0);
+        }
+        // SAFETY: AVX2 detected; start < len.
+        Some(unsafe { super::count_leading_spaces_avx2(input, start) })
+    }
+
+    pub fn count_leading_spaces_sse2(input: &[u8], start: usize) -> usize {
+        if start >= input.len() {
+            return 0;
+        }
+        // SAFETY: SSE2 is baseline on x86_64; start < len.
+        unsafe { super::count_leading_spaces_sse2(input, start) }
+    }
+
+    pub fn find_block_scalar_end_avx2(
+        input: &[u8],
+        start: usize,
+        min_indent: usize,
+    ) -> Option<usize> {
+        if !avx2_detected() {
+            return None;
+        }
+        // SAFETY: AVX2 detected; the kernel bounds every access by input.len().
+        Some(unsafe { super::find_block_scalar_end_avx2(input, start, min_indent) })
+    }
+
+    pub fn find_block_scalar_end_sse2(input: &[u8], start: usize, min_indent: usize) -> usize {
+        // SAFETY: SSE2 is baseline on x86_64; the kernel bounds every access by input.len().
+        unsafe { super::find_block_scalar_end_sse2(input, start, min_indent) }
+    }
+
+    pub fn parse_anchor_name_avx2(input: &[u8], start: usize) -> Option<usize> {
+        if !avx2_detected() {
+            return None;
+        }
+        // SAFETY: AVX2 detected; the kernel bounds every access by input.len().
+        Some(unsafe { super::parse_anchor_name_avx2(input, start) })
+    }
+
+    /// Raw 32-byte classifier; `None` when AVX2 is missing or fewer than 32 bytes remain.
+    pub fn classify_yaml_chars_avx2<const HAS_CR: bool>(
+        input: &[u8],
+        offset: usize,
+    ) -> Option<YamlCharClass> {
+        if !avx2_detected() || offset.checked_add(32)? > input.len() {
+            return None;
+        }
+        // SAFETY: AVX2 detected; offset + 32 <= len.
+        Some(unsafe { super::classify_yaml_chars_avx2::<HAS_CR>(input, offset) })
+    }
+
+    /// Raw 16-byte classifier; `None` when fewer than 16 bytes remain.
+    pub fn classify_yaml_chars_sse2<const HAS_CR: bool>(
+        input: &[u8],
+        offset: usize,
+    ) -> Option<YamlCharClass> {
+        if offset.checked_add(16)? > input.len() {
+            return None;
+        }
+        // SAFETY: SSE2 is baseline on x86_64; offset + 16 <= len.
+        Some(unsafe { super::classify_yaml_chars_sse2::<HAS_CR>(input, offset) })
+    }
+}
+
 #[cfg(test)]
 mod tests {
     use super::*;
